@@ -647,6 +647,13 @@ class SimWorld:
     def observing(self):
         return SimWorld._Quiet(self)
 
+    def new_incarnation(self, tag):
+        """The process that continues after a forked clone died draws other uuids and temporary names
+        than the dead one did (the clone's PRNG state is lost with it; without this both would use the
+        same names, which real processes never do)."""
+        self.rng_uuid.seed(derive(self.seed, f"uuid:{tag}").getrandbits(64))
+        self.rng_tmp.seed(derive(self.seed, f"tmp:{tag}").getrandbits(64))
+
 
 # ----------------------------------------------------------------------------
 # snapshots (always taken with the original functions)
